@@ -168,6 +168,8 @@ func newDumpCacheCfg(c *Case, family string, cfg cache.Config) dumpCache {
 		d = ofDump[string]{c: cache.NewShardedMapOf[string](cfg.Use), name: family}
 	case "Of[struct]":
 		d = ofDump[dumpVal]{c: cache.NewShardedMapOf[dumpVal](cfg.Use), name: family}
+	case "Of[ptr]":
+		d = ofDump[*dumpVal]{c: cache.NewShardedMapOf[*dumpVal](cfg.Use), name: family}
 	default:
 		panic(family)
 	}
@@ -192,6 +194,15 @@ func drawValue(c *Case, family string, n int) (v interface{}, zero bool) {
 		}
 
 		return fmt.Sprintf("s%d", n), false
+	case "Of[ptr]":
+		switch c.Weighted("v", 3, 2, 1) {
+		case 1:
+			return (*dumpVal)(nil), true // a nil pointer is a value like any other
+		case 2:
+			return &dumpVal{}, true
+		}
+
+		return &dumpVal{A: n + 1, S: "x", B: []byte{1, 2}, M: map[string]int{"a": n}}, false
 	case "Of[struct]":
 		switch c.Weighted("v", 3, 1, 2) {
 		case 1:
@@ -285,7 +296,7 @@ func propDumpRestore(c *Case) {
 			chain = append(chain, []string{kindSync, kindSharded}[c.Pick("kind", 2)])
 		}
 	} else {
-		f := []string{"Of[int]", "Of[string]", "Of[struct]"}[c.Pick("V", 3)]
+		f := []string{"Of[int]", "Of[string]", "Of[struct]", "Of[ptr]"}[c.Pick("V", 4)]
 		for i := 0; i <= hops; i++ {
 			chain = append(chain, f)
 		}
@@ -423,11 +434,35 @@ func fillAndTransfer(c *Case, chain []string, transfer func(src, dst dumpCache, 
 				c.Class("failed-dump-before")
 			}
 
-			dn, derr := cur.dump(&buf)
+			// the transfer may go through the non-generic WalkDumpRestorer adapters (what HTTPTransfer uses)
+			viaAdapter := c.Weighted("via-WalkDumpRestorer-adapter", 2, 1) == 1
+
+			var (
+				dn   int
+				derr error
+			)
+
+			if viaAdapter {
+				dn, derr = cur.wdr().Dump(&buf)
+				c.Class("via-WalkDumpRestorer-adapter")
+			} else {
+				dn, derr = cur.dump(&buf)
+			}
+
 			c.Tracef("hop %d: %s.Dump = %d, %v (%d bytes)", h, cur.kind(), dn, derr, buf.Len())
 			c.Assert(derr == nil && dn == n, "dump-result", "Dump of %d entries returned (%d, %v)", n, dn, derr)
 
-			rn, rerr := dst.restore(&buf)
+			var (
+				rn   int
+				rerr error
+			)
+
+			if viaAdapter {
+				rn, rerr = dst.wdr().Restore(&buf)
+			} else {
+				rn, rerr = dst.restore(&buf)
+			}
+
 			c.Tracef("hop %d: %s.Restore = %d, %v", h, dst.kind(), rn, rerr)
 			c.Assert(rerr == nil && rn == n, "restore-result", "Restore of %d entries returned (%d, %v)", n, rn, rerr)
 		}
